@@ -130,14 +130,20 @@ func main() {
 		}
 		os.Exit(2)
 	}
-	// injected export file
-	exp := filepath.Join(*engine, "export", "export.go.txt")
-	if _, err := os.Stat(exp); err == nil {
-		overlay[filepath.Join(*repo, "zz_verif_export.go")] = exp
-	}
-	expm := filepath.Join(*engine, "export", "export_mux.go.txt")
-	if _, err := os.Stat(expm); err == nil {
-		overlay[filepath.Join(*repo, "mux", "zz_verif_export.go")] = expm
+	// injected export files
+	if ents, err := os.ReadDir(filepath.Join(*engine, "export")); err == nil {
+		for _, e := range ents {
+			n := e.Name()
+			if !strings.HasSuffix(n, ".go.txt") {
+				continue
+			}
+			base := strings.TrimSuffix(n, ".txt")
+			if strings.HasPrefix(n, "export_mux") {
+				overlay[filepath.Join(*repo, "mux", "zz_verif_"+base)] = filepath.Join(*engine, "export", n)
+			} else {
+				overlay[filepath.Join(*repo, "zz_verif_"+base)] = filepath.Join(*engine, "export", n)
+			}
+		}
 	}
 	if !*noAlloc {
 		cmd := exec.Command("go", "list", "-m", "-f", "{{.Dir}}", "github.com/bytedance/gopkg")
